@@ -44,10 +44,14 @@ def gen_line(rng, idx):
     for k in range(rng.randint(1, 2)):
         toks += ["machine", gen_machine(rng)]
         r = rng.random()
-        if r < 0.8:
+        if r < 0.6:
             toks += ["login", f"user{idx}{k}", "password", f"pw{idx}{k}"]
+        elif r < 0.72:
+            toks += ["login", f"user{idx}{k}"]           # password missing
+        elif r < 0.84:
+            toks += ["password", f"pw{idx}{k}"]         # login missing
         elif r < 0.9:
-            toks += ["login", f"user{idx}{k}"]
+            pass                                          # neither
         else:
             toks += ["password", f"pw{idx}{k}", "login", f"user{idx}{k}"]
         if rng.random() < 0.2:
@@ -56,6 +60,8 @@ def gen_line(rng, idx):
         toks.append("login")
     if rng.random() < 0.1:
         toks = ["junk", "value"] + toks
+    if rng.random() < 0.08:
+        toks = ["login", "dangling", "password", "danglingpw"] + toks   # credentials before any machine
     return rng.choice([" ", "\t", "  "]).join(toks)
 
 
@@ -65,6 +71,33 @@ def gen_url(rng):
     h = rng.choice(HOSTS)
     port = rng.choice(["", "", ":8080", ":443"])
     return sc + cred + h + port + rng.choice(["/debian", "/debian/", "/debian-security", "/deb", "/ubuntu/dists"])
+
+
+def ref_machines(files):
+    """independent reading of the auth files: an entry is the `machine` token up to the next `machine` token (or the end of
+    its file); it provides credentials only if that entry itself has both a login and a password"""
+    out = {}
+    for lines in files:
+        cur = None
+        for ln in lines:
+            toks = [t for t in __import__("re").split(r"[ \t\n\r]", ln) if t]
+            i = 0
+            while i + 1 < len(toks):
+                k, v = toks[i], toks[i + 1]
+                i += 2
+                if k == "machine":
+                    if cur and cur.get("login") and cur.get("password"):
+                        out.pop(cur["machine"], None)
+                        out[cur["machine"]] = (cur["login"], cur["password"])
+                    cur = {"machine": v}
+                elif k in ("login", "password"):
+                    if cur is not None:
+                        cur[k] = v
+                # unknown keyword: its value is skipped
+        if cur and cur.get("login") and cur.get("password"):
+            out.pop(cur["machine"], None)
+            out[cur["machine"]] = (cur["login"], cur["password"])
+    return out
 
 
 def spec_matches(machine, url):
@@ -116,6 +149,18 @@ def check_one(chk, rng, i):
     model = driver().call("netrc", files=files, urls=urls)
     real_m = [[m.protocol or "", m.hostname, m.port, m.path, a[0], a[1]] for m, a in n._machines.items()]
     replay = {"files": files, "urls": urls}
+    ref = ref_machines(files)
+    from apt_mirror.netrc import Machine
+    refd = {}
+    for k, v in ref.items():            # equal machines (e.g. differing only in the case of the host) are one entry: last wins
+        refd[Machine.from_string(k)] = v
+    ref_set = set(refd.items())
+    real_set = set(n._machines.items())
+    if real_set != ref_set:
+        extra = [(m.hostname, a) for m, a in real_set - ref_set][:2]
+        lost = [(m.hostname, a) for m, a in ref_set - real_set][:2]
+        chk.violation("credentials-from-incomplete-entry" if extra else "complete-entry-lost", replay,
+                      f"machine table differs from the auth files' entries: extra={extra} missing={lost}")
     if real_m != model["machines"]:
         chk.violation("correspondence-netrc-machines", dict(replay, disagreement={"real": real_m, "model": model["machines"]},
                       correspondence="Model/Netrc.lean loadFiles vs NetRC"), f"machines differ: {real_m} vs {model['machines']}", no_input=True)
